@@ -45,6 +45,16 @@ SetRes(s, i, b) == IF b THEN s \cup {i} ELSE s \ {i}
 \* in schema order (ascending index in the generated test schema)
 VisitRes(s) == [k \in 1 .. W |-> [idx |-> k - 1, bit |-> (k - 1) \in s]]
 
+\* How the test schema spells the index of choice i.  A choice index is an
+\* XML Schema unsignedByte: decimal digits, leading zeros allowed and without
+\* meaning ("010" is ten).  Two thirds of the indices are written with leading
+\* zeros, so that each width has zero-padded indices with and without the
+\* digits 8 and 9.
+DecDigit(n) == SubSeq("0123456789", n + 1, n + 1)
+Dec(n) == IF n < 10 THEN DecDigit(n) ELSE DecDigit(n \div 10) \o DecDigit(n % 10)
+IndexLexeme(i) == CASE i % 3 = 1 -> "0" \o Dec(i) [] i % 3 = 2 -> "00" \o Dec(i) [] OTHER -> Dec(i)
+EmitLexemes == PrintT(ToJson([kind |-> "lex", w |-> W, lex |-> [k \in 1 .. W |-> IndexLexeme(k - 1)]]))
+
 Init == /\ bits \in Starts
         /\ ret = Bytes(bits)
         /\ last = [op |-> "init"]
